@@ -134,6 +134,10 @@ func runC19(cfg *config) *Report {
 							// date-shaped columns: a month-first date, an impossible date
 							fills = append(fills, "12312018", "20181332")
 						}
+						if w.Width == 9 {
+							// routing-number-shaped columns: head offices of Federal Reserve Banks (the institutions the mode is named after)
+							fills = append(fills, "011000015", "021001208", "061000146", "091000080", "121000374")
+						}
 						for _, fill := range fills {
 							m := append([]byte{}, out...)
 							same := true
